@@ -189,7 +189,11 @@ class MarginRule(cssrule.CSSRule):
                 # the white space between the tokens has been skipped, but
                 # it may separate (calc(1px + 2%)): put a blank between any two
                 styletokens = []
-                for t in store['styletokens']:
+                stored = store['styletokens']
+                if not isinstance(stored, list):
+                    # a single token is stored as it is
+                    stored = [stored]
+                for t in stored:
                     if styletokens:
                         styletokens.append(('S', ' ', t[2], t[3]))
                     styletokens.append(t)
